@@ -218,7 +218,16 @@ def correspondence(ctx, cases, bins, drv, label=""):
     res = []
     for case, o, ml in zip(cases, obs, model_lines):
         if not machinery_ok(case[2], o):
-            raise RuntimeError("child did not reach the clone (count is not the first word of the block, or the harness failed): %s %s" % (case, o))
+            if o["rc"] in (2, 124) or o["fresh"] is None:
+                raise RuntimeError("child did not reach the clone (the harness failed): %s %s" % (case, o))
+            # the handle's OWN count accessor does not read the count word of its block (a fresh handle must report 1, and the
+            # value stored into the first word of the block must be what the accessor reads back): the clone entry point works on
+            # another word than the count — the guard cannot protect the count.  An observation, not a machinery failure.
+            res.append({"case": case, "obs": o, "model": ml, "impl_c": "other count-accessor fresh=%s preset-readback=%s" % (o["fresh"], o["preset"]),
+                        "model_c": canon_model(ml), "agree": False,
+                        "monitor": ["through this entry point the count reads %s on a fresh handle and %s after the count word of the block was set to %d: "
+                                    "the entry point does not work on the block's count word" % (o["fresh"], o["preset"], case[2])], "label": label})
+            continue
         res.append({"case": case, "obs": o, "model": ml, "impl_c": canon_impl(o), "model_c": canon_model(ml),
                     "agree": canon_impl(o) == canon_model(ml), "monitor": monitor(case[2], o), "label": label})
     return res, facts_line
